@@ -1556,3 +1556,113 @@ Proof.
     destruct (block_with_sim _ _ _ _ _ PB Q4) as (U3 & Fn3 & Tb & Sb); [split; [discriminate|norm; exact U2]|].
     norm. auto.
 Qed.
+
+Lemma nodes_sok_fix F l :
+  (fix all (l : list tree) : Prop := match l with [] => True | x :: r => expr_sok B F x /\ all r end) l <-> Forall (expr_sok B F) l.
+Proof.
+  induction l as [|x l IH]; simpl; [split; [constructor|auto]|].
+  split; [intros [H1 H2]; constructor; [exact H1|apply IH; exact H2]|].
+  intro H. split; [exact (Forall_inv H)|apply IH; exact (Forall_inv_tail H)].
+Qed.
+
+Lemma scope_for_eq T v nodes b G :
+  scope_stmt T (SFor v nodes b) G =
+  obind (match v with Some n => declare T false n ([] :: G) | None => Some ([] :: G) end)
+        (fun G1 => obind (use_vars (lvars nodes) G1) (scope_block T b)).
+Proof. reflexivity. Qed.
+
+Lemma for_stmt_sim fuel s r s' : parse_for_stmt B ps fuel s = Ok r s' -> SIM s r s'.
+Proof.
+  unfold parse_for_stmt. intros H Q [N U]. cbv zeta in H.
+  set (s1 := adv (push_inherit true s)) in H.
+  assert (A1 : abs s1 = [] :: abs s) by reflexivity.
+  assert (Fn1 : fns s1 = fns s) by reflexivity.
+  assert (U1 : sused s1 = []) by (unfold s1; norm; exact U).
+  assert (N1 : scs s1 <> []) by (unfold s1; simpl; discriminate).
+  match type of H with (match ?lv with _ => _ end) = _ => set (LV := lv) in H end.
+  assert (NL : serrs (snd LV) = [] ->
+               fst LV <> None /\ frames (snd LV) = frames s1 /\ fns (snd LV) = fns s /\ sused (snd LV) = [] /\
+               forall v, fst LV = Some v ->
+                 match v with Some n => declare (tabs_of B (fns s)) false n ([] :: abs s) | None => Some ([] :: abs s) end = Some (abs (snd LV))).
+  { unfold LV. destruct (ct s1); cbn [fst snd];
+      try (intro Q0; split; [discriminate|]; split; [reflexivity|]; split; [reflexivity|]; split; [exact U1|]; intros v Ev; injection Ev as <-; rewrite A1; reflexivity).
+    destruct (validate_var_decl B _ _ false s1) as [ok s2] eqn:V.
+    destruct ok; cbn [fst snd]; intro Q0.
+    - autorewrite with serrs in Q0.
+      destruct (SN_passert T_DECLARE (adv (scope_set (tlit (cur (cs s1))) (pos s1) s2)) Q0) as [Q3 _]. autorewrite with serrs in Q3.
+      destruct (serrs_validate_var_decl _ _ _ _ _ _ _ V Q3) as [_ E2]. subst s2.
+      split; [discriminate|]. split; [autorewrite with frames; reflexivity|]. split; [norm; exact Fn1|]. split; [norm; exact U1|].
+      intros v Ev. injection Ev as <-.
+      pose proof (declare_sim B (tlit (cur (cs s1))) (pos s1) false s1) as D. rewrite V, A1, Fn1 in D. norm. apply D; [reflexivity|exact N1].
+    - destruct (serrs_validate_var_decl _ _ _ _ _ _ _ V Q0) as [E _]. discriminate E. }
+  destruct LV as [[v|] s4]; cbn [fst snd] in NL.
+  2:{ apply Ok_inj in H as [E1 E2]; subst. norm. destruct (NL Q) as (X & _). contradiction. }
+  destruct (passert T_RANGE s4) as [ok s5] eqn:A.
+  destruct ok; cbn [negb] in H.
+  2:{ apply Ok_inj in H as [E1 E2]; subst. norm. destruct (passert_ne _ _ _ _ A Q) as [E _]. discriminate E. }
+  destruct (p_expr_list B (adv s5)) as [ns s7| |] eqn:P; try discriminate H.
+  destruct ns as [nodes|]; [|apply Ok_inj in H as [E1 E2]; subst; norm; discriminate Q].
+  destruct nodes as [|n more] eqn:EN; [apply Ok_inj in H as [E1 E2]; subst; norm; discriminate Q|]. rewrite <- EN in *.
+  destruct (_ && _); [apply Ok_inj in H as [E1 E2]; subst; norm; discriminate Q|].
+  match type of H with context[parse_block_with ps fuel false ?x] => set (sb := x) in H end.
+  destruct (parse_block_with ps fuel false sb) as [b s10| |] eqn:PB; try discriminate H.
+  apply Ok_inj in H as [E1 E2]; subst r s'. norm.
+  destruct (SN_finish_end s10 Q) as [Q10 F10].
+  destruct (block_with_sound ps HPS _ _ _ _ _ PB Q10) as (Qb & Fb & _).
+  assert (Qs8 : serrs (assert_eol s7) = [] /\ sb = apnl (assert_eol s7) /\
+                tyerr_s B TS_for_range_type (TCall [] nodes) (pos (assert_eol s7)) = false).
+  { unfold sb in Qb |- *. autorewrite with serrs in Qb. destruct (tyerr_s B _ _ _); [discriminate Qb|]. auto. }
+  destruct Qs8 as (Q8 & Esb & TE). destruct (assert_eol_ne _ Q8) as [E8 _]. rewrite E8 in *.
+  destruct (p_expr_list_sn B _ _ _ P Q8) as [Q6 F7]. autorewrite with serrs in Q6.
+  destruct (passert_ne _ _ _ _ A Q6) as [_ E5]. subst s5. destruct (NL Q6) as (_ & F4 & Fn4 & U4 & D4).
+  specialize (D4 v eq_refl).
+  destruct (p_expr_list_full B _ _ _ P Q8) as (Tn & Un & Fn7 & U7); [norm; exact U4|]. norm.
+  destruct (block_with_sim _ _ _ _ _ PB Q10) as (U10 & Fn10 & Tb & Sb).
+  { rewrite Esb. split; [|norm; exact U7]. change (scs (apnl s7)) with (scs s7).
+    eapply (scs_of_frames s1); [|exact N1]. rewrite F7. autorewrite with frames. exact F4. }
+  rewrite Esb in *. norm. rewrite Fn7, Fn4 in *.
+  split; [exact U10|]. split; [exact Fn10|]. split.
+  - simpl. split; [|split; [eexists; exact TE|exact Tb]]. apply nodes_sok_fix.
+    rewrite Forall_forall in Tn |- *. intros x Hx. rewrite <- Fn4. apply (expr_sok_of B (adv s4)). apply Tn. exact Hx.
+  - rewrite scope_for_eq, D4. cbn [obind]. rewrite Un. cbn [obind]. exact Sb.
+Qed.
+
+Lemma sim_none s s' : (serrs s' = [] -> False) -> SIM s None s'.
+Proof. intros X Q. destruct (X Q). Qed.
+
+Lemma statement_body_sim fuel s r s' : parse_statement_body B ps fuel s = Ok r s' -> SIM s r s'.
+Proof.
+  unfold parse_statement_body. intro H.
+  destruct (ct s);
+    try (apply Ok_inj in H as [E1 E2]; subst; apply sim_none; intro Q; autorewrite with serrs in Q; discriminate Q).
+  - apply empty_stmt_sim in H. exact H.
+  - destruct (ttype (peek (cs s)));
+      try (apply assign_stmt_sim in H; exact H); try (apply typed_decl_stmt_sim in H; exact H);
+      try (apply inferred_decl_stmt_sim in H; exact H);
+      (destruct (is_func (tlit (cur (cs s))) s); [apply call_stmt_sim in H; exact H|]);
+      try (apply assign_stmt_sim in H; exact H);
+      (apply Ok_inj in H as [E1 E2]; subst; apply sim_none; intro Q; autorewrite with serrs in Q; discriminate Q).
+  - apply Ok_inj in H as [E1 E2]; subst. intros Q [N U]. norm. auto.
+  - apply empty_stmt_sim in H. exact H.
+  - apply if_stmt_sim in H. exact H.
+  - apply return_stmt_sim in H. exact H.
+  - apply for_stmt_sim in H. exact H.
+  - apply while_stmt_sim in H. exact H.
+  - apply break_stmt_sim in H. exact H.
+Qed.
+
+End StmtSim.
+
+Section ProgramSim.
+Variable B : benv.
+
+Theorem stmt_sim : forall fuel s r s', parse_statement B fuel s = Ok r s' -> SIM B s r s'.
+Proof.
+  induction fuel as [|f IH]; intros s r s' H; [discriminate|]. cbn [parse_statement] in H.
+  apply (statement_body_sim B (parse_statement B f) (stmt_sound B f) IH) in H. exact H.
+Qed.
+
+Lemma parse_block_sim fuel s b s' : parse_block B fuel s = Ok b s' -> serrs s' = [] -> WF s ->
+  sused s' = [] /\ fns s' = fns s /\ block_sok B (fns s) b /\
+  scope_block (tabs_of B (fns s)) b (abs s) = Some (tl (abs s')).
+Proof. unfold parse_block. apply block_with_sim; [apply stmt_sound|apply stmt_sim]. Qed.
